@@ -16,6 +16,9 @@
     `C02_chars_code_iff`): for every field width `k` the code of the field written from the JSON text equals the code
     written from the bytes themselves; `C09_json_file_values_roundtrip` / `C09_json_file_encode_same`: a whole flat
     value list is unchanged, hence `encodeData` from the JSON file is `encodeData` from the object.
+  * `C09_bytes_repr_roundtrip`        — the value token of the two TEXT formats: for every octet string
+    `ast.literal_eval(repr(b)) == b` (`evalBytesLiteral (reprBytes b) = some b`; either quote, backslash, TAB / LF / CR,
+    `\xhh`).  The shape hypotheses of the text-converter theorems (`ReprOK.bytes_tok`, Props/C09Text.lean) stay tested per value.
   * `C09_json_text_latin1_unique`     — latin-1 is the ONLY serialiser with this property: any
     `ser : List UInt8 → List Char` that the encoder's `str.encode('latin-1')` inverts IS `decodeLatin1`.
   * `C09_utf8_when_valid_loses_roundtrip` — proved negation for the "UTF-8 when valid, else latin-1" serialiser
@@ -293,6 +296,128 @@ theorem C09_json_file_encode_same (tmpl : List Desc) (compressed : Bool) (valss 
     | nil => rfl
     | cons v r ih => simp [List.mapM_cons, C09_json_file_values_roundtrip, ih]
   rw [this]; rfl
+
+/-! ### the value token of the TEXT formats for character data -/
+namespace C09Cli
+
+theorem scanBytes_close (q : Char) : scanBytes q [q] = some [] := by
+  rw [scanBytes.eq_def]; simp
+
+theorem isQuote_cases (q : Char) (hq : q = '\'' ∨ q = '"') : q.toNat = 0x27 ∨ q.toNat = 0x22 := by
+  rcases hq with rfl | rfl
+  · left; decide
+  · right; decide
+
+theorem scanBytes_escByte (q : Char) (hq : q = '\'' ∨ q = '"') (x : UInt8) (rest : List Char) :
+    scanBytes q (escByte q x ++ rest) = consB x (scanBytes q rest) := by
+  have hx := UInt8.toNat_lt x
+  have hqn := isQuote_cases q hq
+  have hq5 : q ≠ '\\' := by rcases hq with rfl | rfl <;> decide
+  have hc : (Char.ofNat x.toNat).toNat = x.toNat := latin1_char x
+  unfold escByte
+  split
+  · -- the quote in use or the backslash: backslash + the character itself
+    rename_i h
+    simp only [List.cons_append, List.nil_append]
+    rw [scanBytes.eq_def]
+    have h1 : ('\\' : Char) ≠ q := fun e => hq5 e.symm
+    simp only [h1, if_false, if_true]
+    have hne : Char.ofNat x.toNat ≠ 'x' := by
+      intro e
+      have := congrArg Char.toNat e
+      rw [hc] at this
+      have : x.toNat = 120 := by simpa using this
+      rcases h with h | h <;> rcases hqn with g | g <;> omega
+    simp only [hne, if_false]
+    have hb : byteEscape (Char.ofNat x.toNat) = some x.toNat := by
+      rcases h with h | h
+      · rcases hqn with g | g
+        · have : Char.ofNat x.toNat = '\'' := by
+            rw [h, g]
+          rw [this]
+          have : x.toNat = 0x27 := by omega
+          rw [this]; decide
+        · have : Char.ofNat x.toNat = '"' := by
+            rw [h, g]
+          rw [this]
+          have : x.toNat = 0x22 := by omega
+          rw [this]; decide
+      · rw [h]; decide
+    rw [hb]
+    simp only [UInt8.ofNat_toNat]
+  split
+  · rename_i _ h
+    have : x = UInt8.ofNat 9 := by rw [← h, UInt8.ofNat_toNat]
+    subst this
+    simp only [List.cons_append, List.nil_append]
+    rw [scanBytes.eq_def]
+    have h1 : ('\\' : Char) ≠ q := fun e => hq5 e.symm
+    simp only [h1, if_false, if_true]
+    rfl
+  split
+  · rename_i _ _ h
+    have : x = UInt8.ofNat 10 := by rw [← h, UInt8.ofNat_toNat]
+    subst this
+    simp only [List.cons_append, List.nil_append]
+    rw [scanBytes.eq_def]
+    have h1 : ('\\' : Char) ≠ q := fun e => hq5 e.symm
+    simp only [h1, if_false, if_true]
+    rfl
+  split
+  · rename_i _ _ _ h
+    have : x = UInt8.ofNat 13 := by rw [← h, UInt8.ofNat_toNat]
+    subst this
+    simp only [List.cons_append, List.nil_append]
+    rw [scanBytes.eq_def]
+    have h1 : ('\\' : Char) ≠ q := fun e => hq5 e.symm
+    simp only [h1, if_false, if_true]
+    rfl
+  split
+  · simp only [List.cons_append, List.nil_append]
+    rw [scanBytes.eq_def]
+    have h1 : ('\\' : Char) ≠ q := fun e => hq5 e.symm
+    simp only [h1, if_false, if_true]
+    rw [hexVal_hexDigitChar _ (by omega), hexVal_hexDigitChar _ (by omega)]
+    simp only
+    have : 16 * (x.toNat / 16) + x.toNat % 16 = x.toNat := by omega
+    rw [this, UInt8.ofNat_toNat]
+  · rename_i h0 _ _ _ h
+    simp only [List.cons_append, List.nil_append]
+    rw [scanBytes.eq_def]
+    have hcq : Char.ofNat x.toNat ≠ q := by
+      intro e
+      have := congrArg Char.toNat e
+      rw [hc] at this
+      exact h0 (Or.inl this)
+    have hcb : Char.ofNat x.toNat ≠ '\\' := by
+      intro e
+      have := congrArg Char.toNat e
+      rw [hc] at this
+      exact h0 (Or.inr this)
+    simp only [hcq, hcb, if_false, hc]
+    rw [if_neg h, UInt8.ofNat_toNat]
+
+end C09Cli
+
+/-- **the value token of the two TEXT formats**: `ast.literal_eval(repr(b)) == b` for every octet string (either quote,
+    backslash, TAB / LF / CR, `\xhh` for control characters and 8-bit octets) -/
+theorem C09_bytes_repr_roundtrip (b : List UInt8) : evalBytesLiteral (reprBytes b) = some b := by
+  have hq : reprQuote b = '\'' ∨ reprQuote b = '"' := by
+    unfold reprQuote; split <;> simp
+  unfold reprBytes evalBytesLiteral
+  simp only [hq, if_true]
+  generalize reprQuote b = q at hq
+  induction b with
+  | nil => simp [scanBytes_close]
+  | cons x r ih =>
+    simp only [List.flatMap_cons, List.append_assoc]
+    rw [scanBytes_escByte q hq, ih]
+    rfl
+
+example : reprBytes [0x69, 0x74, 0x27, 0x73, 0x00, 0xFF, 0x5C, 0x0A] =
+    ['b', '"', 'i', 't', '\'', 's', '\\', 'x', '0', '0', '\\', 'x', 'f', 'f', '\\', '\\', '\\', 'n', '"'] := by decide
+example : reprBytes [0x27, 0x22] = ['b', '\'', '\\', '\'', '"', '\''] := by decide
+
 
 /-! ### the refuted alternative -/
 
